@@ -579,3 +579,42 @@ class GridsBattery:
 
 
 BOUNDED = [GridsBattery()]
+
+
+class CoordinateProducts(Lemma):
+    """arithmetic the origin index goes through ("doubles the origin index"): c * n and n * c return a NEW coordinate with every
+    index multiplied and leave c itself unchanged (frame); only c *= n changes c (real Coordinate1D / CoordinateND bodies)."""
+    prop = "C13"
+    cases = ("Coordinate1D", "CoordinateND")
+    name = "property:coordinate-products"
+
+    def prove(self, vc, kind):
+        nm = f"{self.name}[{kind}]"
+        GRD = "rpylib.grid.grid:"
+        it = vc.interp
+        n = vc.int("factor")
+        cs = vc.ints("index", 1 if kind == "Coordinate1D" else 2)
+        mk = lambda: vc.new(GRD + "Coordinate1D", cs[0]) if kind == "Coordinate1D" else vc.new(GRD + "CoordinateND", list(cs))
+        val = lambda o: [o.fields["value"]] if kind == "Coordinate1D" else list(o.fields["value"])
+        for side in ("c * n", "n * c"):
+            c = mk()
+            import ast as _ast
+            r = it.binop(_ast.Mult, c, n) if side == "c * n" else it.binop(_ast.Mult, n, c)
+            ok = hasattr(r, "fields") and r is not c
+            vc.check(nm + f"::{side}:returns-a-new-coordinate", ok)
+            if hasattr(r, "fields"):
+                vc.check(nm + f"::{side}:every-index-multiplied", And(*[compare(a, b * n, "==") for a, b in zip(val(r), cs)]))
+            vc.check(nm + f"::{side}:the-coordinate-itself-is-unchanged", And(*[compare(a, b, "==") for a, b in zip(val(c), cs)]))
+        c = mk()
+        r = vc.method(c, "__imul__", n)
+        vc.check(nm + "::c *= n:multiplies-in-place", r is c and And(*[compare(a, b * n, "==") for a, b in zip(val(c), cs)]))
+
+    def replay(self, model, clause, kind):
+        from rpylib.grid.grid import Coordinate1D, CoordinateND
+        c = Coordinate1D(3) if kind == "Coordinate1D" else CoordinateND([3, 4])
+        before = c.value
+        r = (2 * c) if "n * c" in clause else (c * 2)
+        return (c.value != before or r is c, {"expression": "2 * c" if "n * c" in clause else "c * 2", "coordinate_before": before, "coordinate_after": c.value, "result_is_the_same_object": r is c})
+
+
+UNITS += [CoordinateProducts()]
